@@ -36,10 +36,10 @@ type RunResult struct {
 }
 
 type RunOpts struct {
-	Target    string
-	Known     map[string]bool
-	Oracles   func(c *Chain) []Oracle
-	FullReplay bool
+	Target      string
+	Known       map[string]bool
+	Oracles     func(c *Chain) []Oracle
+	FullReplay  bool
 	QuietBlocks int
 }
 
